@@ -702,6 +702,16 @@ func (bf *boundsFunc) lenOf(e ast.Expr) (lin, bool) {
 		l.c = int64(len(s))
 		return l, true
 	}
+	if id, ok := e.(*ast.Ident); ok {
+		// a package-level []byte("lit") variable never assigned: constant length
+		if v, ok := bf.info.Uses[id].(*types.Var); ok && v.Pkg() != nil && v.Parent() == v.Pkg().Scope() {
+			if n, ok := bf.constLen(id); ok {
+				l := newLin()
+				l.c = n
+				return l, true
+			}
+		}
+	}
 	switch x := e.(type) {
 	case *ast.SliceExpr:
 		if x.Slice3 {
@@ -872,6 +882,14 @@ func (bf *boundsFunc) factsOfLit(s *bstate, l Lit) {
 			return
 		}
 		pk := fn.Pkg().Path()
+		if pk == "path" && fn.Name() == "IsAbs" && len(x.Args) == 1 {
+			// path.IsAbs(p) is len(p) > 0 && p[0] == '/'
+			if ln, ok := bf.lenOf(x.Args[0]); ok {
+				g := newLin().add(ln, -1)
+				g.c++
+				s.addLE(g)
+			}
+		}
 		if (pk == "bytes" || pk == "strings") && len(x.Args) == 2 {
 			switch fn.Name() {
 			case "HasPrefix", "HasSuffix", "Contains":
@@ -882,6 +900,11 @@ func (bf *boundsFunc) factsOfLit(s *bstate, l Lit) {
 					g := newLin().add(ln, -1)
 					g.c += n
 					s.addLE(g)
+				} else if ok && !ok2 {
+					// a non-constant prefix / suffix / substring: len(arg1) ≤ len(arg0)
+					if ln1, ok := bf.lenOf(x.Args[1]); ok {
+						s.addLE(ln1.add(ln, -1))
+					}
 				}
 			}
 		}
